@@ -260,6 +260,25 @@ theorem C18_set_unquoted_iff (text : Str) (h0 : 0 ∉ text) :
       · exact ⟨_, B h2⟩
       · exact ⟨_, C h1 h2 hw⟩
 
+/-- **cif_value_set_quoted on every kind of value** (the table of cif.h).  `C18_set_unquoted_iff` is the one case in which the text
+    is examined — a QUOTED character value asked to become unquoted.  All other cases, for every value and both targets:
+    * unknown / not-applicable: asked QUOTED they become the quoted strings `?` / `.`; asked unquoted they stay;
+    * list, table: cannot be quoted (CIF_ARGUMENT_ERROR), asked unquoted they stay;
+    * number: only the flag changes;
+    * character value already UNQUOTED: the flag is set as asked, whatever the text (no test: an unquoted character value with
+      arbitrary text cannot be made through the public API — every initialiser marks the value quoted — only by the parser);
+    * quoted character value asked QUOTED: stays. -/
+theorem C18_set_quoted_all_kinds (q : Bool) (text : Str) (t : Str) (n : Bool) (d : List Nat) (su : Option (List Nat)) (sc : Int)
+    (qn : Bool) (vs : List V) (es : List (Str × Str × V)) :
+    setQuoted false .unk q = .ok (if q then .chr true [63] else .unk) ∧
+    setQuoted false .na q = .ok (if q then .chr true [46] else .na) ∧
+    setQuoted false (.lst vs) q = (if q then .error Gen.ErrCodes.CIF_ARGUMENT_ERROR else .ok (.lst vs)) ∧
+    setQuoted false (.tbl es) q = (if q then .error Gen.ErrCodes.CIF_ARGUMENT_ERROR else .ok (.tbl es)) ∧
+    setQuoted false (.numb qn t n d su sc) q = .ok (.numb q t n d su sc) ∧
+    setQuoted false (.chr false text) q = .ok (.chr q text) ∧
+    setQuoted false (.chr true text) true = .ok (.chr true text) := by
+  cases q <;> simp [setQuoted]
+
 /-- `cif_value_try_quoted` differs from `cif_value_set_quoted` only in answering CIF_OK, leaving the value as it is, where
     `set_quoted` refuses -/
 theorem C18_try_quoted (v : V) (q : Bool) :
@@ -365,6 +384,52 @@ theorem C18_delim_reads_back (s ctx : Str) (unq tri : Bool) (limit : Nat) (w : L
   exact C01_lex_value_after_ws .cif2 w (presOf (recommend s unq tri limit)) s ctx line col lt pol log hok hfirst hws hfitw hadm hfit
     (hstart _) hctx
 
+/-- **C18, "within the length limit".**  The hypothesis `hfit` of `C18_delim_reads_back` (no line ending inside the presentation is
+    longer than the scanner's limit) follows from the `length_limit` ARGUMENT: if the limit passed to cif_analyze_string does not
+    exceed `CIF_LINE_LENGTH` (re-extracted from cif.h: `Gen.NamesConsts.lineLength`; `Lemmas.Analyze.linesFit_limit_link` ties the
+    2048 of Spec/Lexical.lean to it) and the presentation's first physical line fits behind the start column, then the
+    recommended presentation `δ s δ` contains no over-long line.  (A single-line presentation ends no line itself; for a
+    multi-line triple-quoted one the analysis has checked `length_max ≤ limit`, and `length_first + 3 < limit` makes
+    the column condition true at the start of a line; `hcol` is asked only of multi-line strings.) -/
+theorem C18_fits_limit (s : Str) (unq tri : Bool) (limit col : Nat)
+    (hchars : Spec.Lexical.okUnits .cif2 none s = true) (hnt : recommend s unq tri limit ≠ .text)
+    (hlim : limit ≤ Gen.NamesConsts.lineLength)
+    (hcol : (counters s).numLines ≠ 1 →
+      col + (recommend s unq tri limit).units.length + (counters s).firstLine ≤ Gen.NamesConsts.lineLength) :
+    Spec.Lexical.linesFit col ((recommend s unq tri limit).units ++ s ++ (recommend s unq tri limit).units) = true := by
+  have hu := okUnits_units .cif2 s none hchars
+  have h0 : 0 ∉ s := fun h => (hu 0 h).1 rfl
+  have h13 : ∀ c ∈ s, c ≠ 13 := fun c hc => (hu c hc).2
+  have hll : Gen.NamesConsts.lineLength = 2048 := rfl
+  obtain ⟨A1, A2, A3, A4, A5⟩ := C18_delim_admissible s unq tri limit h0
+  cases hL : splitLines s with
+  | nil => exact absurd hL (splitLines_ne_nil s)
+  | cons l0 ls =>
+    obtain ⟨_, h2, h3, _, h5, _⟩ := counters_stats s l0 ls hL
+    have hδ : ∀ c ∈ (recommend s unq tri limit).units, c ≠ 10 ∧ c ≠ 13 := by
+      cases hd : recommend s unq tri limit <;> simp [Delim.units] <;> exact absurd hd hnt
+    refine linesFit_presentation _ s col l0 ls hδ h13 hL ?_ ?_
+    · intro hne
+      have hmulti : (counters s).numLines ≠ 1 := by
+        rw [h2]; cases ls with
+        | nil => exact absurd rfl hne
+        | cons a b => simp
+      have := hcol hmulti
+      rw [← h3]; omega
+    · intro hne
+      rw [← h5]
+      have hmulti : (counters s).numLines ≠ 1 := by
+        rw [h2]; cases ls with
+        | nil => exact absurd rfl hne
+        | cons a b => simp
+      cases hd : recommend s unq tri limit with
+      | text => exact absurd hd hnt
+      | none => exact absurd (A1 hd).2.2.2.2.2.2.1 hmulti
+      | apos => exact absurd (A2 hd).2.1 hmulti
+      | quot => exact absurd (A3 hd).2.1 hmulti
+      | apos3 => have := (A4 hd).2; simp only [hmulti, if_false] at this; omega
+      | quot3 => have := (A5 hd).2; simp only [hmulti, if_false] at this; omega
+
 example : (analyze (a!"ab\r\ncd") true true 2048).lengthFirst = 2 := by decide
 example : splitLines [97, 98, 13, 10, 99, 100, 13, 101, 10] = [[97, 98], [99, 100], [101], []] := by decide
 example : (analyze [97, 98, 13, 10, 99, 100] true true 2048).lengthFirst = 2 ∧ (analyze [97, 98, 13, 10, 99, 100] true true 2048).numLines = 2 := by decide
@@ -387,5 +452,11 @@ example : ∃ l c, Model.Lexer.nextToken .cif2 ⟨[32] ++ (([39] ++ a!"a b" ++ [
     (by decide) (by decide) (by decide) (Or.inr (by intro b rest h; cases h)) (by decide) (by decide) (by decide) (by decide)
 example : (analyze [97, 10, 98] true false 2048).delimLength = 2 ∧ (analyze [97, 10, 98] true false 2048).containsTextDelim = false ∧
     (analyze [97, 10, 98] true false 2048).hasReservedStart = false ∧ Spec.Lexical.okUnits .cif2 none [97, 10, 98] = true := by decide
+
+-- `C18_fits_limit` applied: the three-line string `ab⏎c'"d⏎e`, limit 40 ≤ CIF_LINE_LENGTH, triple-quoted, placed at column 2000
+example : Spec.Lexical.linesFit 2000 ((recommend (a!"ab\nc'\"d\ne") true true 40).units ++ a!"ab\nc'\"d\ne" ++ (recommend (a!"ab\nc'\"d\ne") true true 40).units) = true :=
+  C18_fits_limit (a!"ab\nc'\"d\ne") true true 40 2000 (by decide) (by decide) (by decide) (by intro _; decide)
+example : recommend (a!"ab\nc'\"d\ne") true true 40 = .apos3 := by decide
+example : setQuoted false (.chr false (a!"a b")) false = .ok (.chr false (a!"a b")) := (C18_set_quoted_all_kinds false (a!"a b") [] false [] none 0 false [] []).2.2.2.2.2.1
 
 end CifModel
